@@ -258,7 +258,7 @@ impl C14 {
 
     fn special(&self, rng: &mut Rng, case: &Case, obs: &mut Obs) {
         let mut m = gen_model(rng, &GenCfg::geometric()).model;
-        let which = case.index % 6;
+        let which = case.index % 7;
         let label = match which {
             0 => {
                 // many identical shades (more than the acceleration structure's leaf size)
@@ -300,6 +300,18 @@ impl C14 {
                     m.schedules.day.remove(rng.usize(n));
                 }
                 "missing-daily-schedule"
+            }
+            6 => {
+                // daily schedules with more than 24 values (non-zero beyond the 24th)
+                for d in m.schedules.day.iter_mut() {
+                    if rng.chance(0.7) {
+                        let extra = 1 + rng.usize(30);
+                        for _ in 0..extra {
+                            d.values.push(if rng.chance(0.7) { 1.0 } else { 0.0 });
+                        }
+                    }
+                }
+                "daily-schedules-with-more-than-24-values"
             }
             4 => {
                 for w in m.walls.iter_mut() {
